@@ -21,11 +21,8 @@ Theorem runs_independent : forall a lines st,
 Proof. exact runs_independent_lemma. Qed.
 Print Assumptions runs_independent.
 
-(* Creating or customising one style object never changes what another style shows. *)
-Theorem styles_independent : forall sts o i, i < length sts -> touches i o = false ->
-  nth_error (fst (style_step sts o)) i = nth_error sts i.
-Proof. exact style_step_other. Qed.
-Print Assumptions styles_independent.
+(* Creating or customising one style object never changes what another style shows: further down, on the heap of style
+   objects (styles_independent, heap_of_styles_refines_values). *)
 
 (* ================= the hypothesis restores_effective discharged (Proofs/AppStateRestoreLemmas.v) =================
    The override the restore records is keyed by the POSITION of the command object the resolver was handed: the index,
@@ -227,3 +224,68 @@ Example same_names_two_positions :
   | Err _ => False
   end.
 Proof. vm_compute. repeat split; reflexivity. Qed.
+
+(* ================= handler arguments; one raw-arguments object run twice (Proofs/AppStateObsLemmas.v) =================
+   obs_on: the summary of the run AND the arguments its handler is given (what the resolver parsed for the selected
+   command on the application as the overrides make it). *)
+From Clikit Require Import Proofs.AppStateObsLemmas.
+
+(* "the same status, output and handler arguments as a freshly built application gives for that line" *)
+Theorem runs_and_handler_arguments_independent : forall a lines,
+  runs_obs_on [] a lines = map (fun l => snd (obs_on [] a l)) lines.
+Proof. exact runs_obs_independent_fresh. Qed.
+Print Assumptions runs_and_handler_arguments_independent.
+Theorem runs_and_handler_arguments_independent_from : forall a lines st, apply_state st a = apply_state [] a ->
+  runs_obs_on st a lines = map (fun l => snd (obs_on [] a l)) lines.
+Proof. exact runs_obs_independent_from. Qed.
+Print Assumptions runs_and_handler_arguments_independent_from.
+
+(* a run leaves the raw arguments it was handed as they were (the help resolver works on a copy since the repair) ... *)
+Theorem raw_arguments_unaltered : forall x toks, raw_after false x toks = toks.
+Proof. exact raw_args_unaltered_lemma. Qed.
+Print Assumptions raw_arguments_unaltered.
+(* ... so ONE raw-arguments object may be handed to run() again and again: every run gives what a fresh application gives
+   for the line the object was made from *)
+Theorem same_raw_arguments_object_reusable : forall a toks n st, apply_state st a = apply_state [] a ->
+  snd (run_same false n st a toks) = repeat (toks, snd (obs_on [] a toks)) n /\
+  apply_state (fst (run_same false n st a toks)) a = apply_state [] a.
+Proof. exact run_same_lemma. Qed.
+Print Assumptions same_raw_arguments_object_reusable.
+Theorem histories_of_doubled_runs_independent : forall a lines st, apply_state st a = apply_state [] a ->
+  runs_twice_on false st a lines = flat_map (fun l => [(l, snd (obs_on [] a l)); (l, snd (obs_on [] a l))]) lines.
+Proof. exact runs_twice_lemma. Qed.
+Print Assumptions histories_of_doubled_runs_independent.
+(* with the deletion in place (the code before the repair) it is false: "help go" twice = help page, then go RUNS *)
+Example raw_arguments_reuse_refuted_before_the_repair :
+  match build_app RawArgsExample.cfg with
+  | Ok a => map (fun to => (fst to, sm_action (fst (snd to)))) (snd (run_same true 2 [] a [S_help; RawArgsExample.s_go]))
+            = [([S_help; RawArgsExample.s_go], AHelpCmd [RawArgsExample.s_go]); ([RawArgsExample.s_go], AHandler [RawArgsExample.s_go])]
+  | Err _ => False
+  end.
+Proof. exact RawArgsExample.reuse_refuted_in_place. Qed.
+
+(* ================= table styles: objects on a heap (Proofs/AppStateStyleLemmas.v) =================
+   A TableStyle holds a REFERENCE to a BorderStyle object; the BorderStyle presets live in class attributes and are handed
+   out as copies; borderless() / compact() edit the object they got; customisations assign through the reference.  The
+   heap semantics (style_run false world0) shows, style by style, what the specification shows in which every style is a
+   value of its own and an operation naming style i rewrites element i and nothing else (spec_run). *)
+From Clikit Require Import Proofs.AppStateStyleLemmas.
+
+Theorem heap_of_styles_refines_values : forall ops,
+  views (fst (style_run false world0 ops)) = map Some (spec_run [] ops).
+Proof. exact heap_refines_values. Qed.
+Print Assumptions heap_of_styles_refines_values.
+(* "creating or customising one style object never changes how a table built with another renders": after any sequence
+   of operations, an operation that does not name the existing style i (creating a style, customising another through any
+   field or through its border reference, rendering) leaves what a rendering of i reads unchanged *)
+Theorem styles_independent : forall ops o i,
+  let w := fst (style_run false world0 ops) in
+  i < length (w_styles w) -> names o <> Some i ->
+  view_of (fst (style_step false w o)) i = view_of w i.
+Proof. exact styles_independent_lemma. Qed.
+Print Assumptions styles_independent.
+(* with the presets handed out WITHOUT a copy (before fix 30a48a0) the refinement is false: borderless(), compact() *)
+Example styles_independent_refuted_without_the_copy :
+  nth_error (views (fst (style_run true world0 [SMk PBorderless; SMk PCompact]))) 0
+  <> nth_error (map Some (spec_run [] [SMk PBorderless; SMk PCompact])) 0.
+Proof. exact styles_shared_refuted. Qed.
